@@ -77,7 +77,10 @@ class C09(framework.PropertyCheck):
                 w = rng.choice([1, 2, 3, 8, 16, 64, 65, 128])
                 r = rng.random()
                 v = (1 << (w - 1)) if r < 0.3 else (1 << w) - 1 if r < 0.45 else 0 if r < 0.55 else rng.getrandbits(w)
-                yield {'k': k, 'w': w, 'v': v}
+                c = {'k': k, 'w': w, 'v': v}
+                if rng.random() < 0.3:
+                    c['hist'] = True
+                yield c
             elif k == 'str':
                 v = self.big(rng)
                 yield {'k': k, 'v': v, 'base': rng.choice([2, 8, 10, 16])}
@@ -147,6 +150,15 @@ class C09(framework.PropertyCheck):
             w, v = c['w'], c['v']
             bits = fmt_bin(v, w)
             want = ('L', True, (I(sint(bits)), I(sint(bits)), I(v), I(w)))
+            if c.get('hist'):
+                # a function that uses (signed s) was defined and called while another file, with another width for s, was loaded
+                w2 = w + 3 if w < 200 else w - 3
+                v2 = (1 << (w2 - 1)) | 1
+                want_a = I(sint(fmt_bin(v2, w2)))
+                return ([('loadvcd', 't0', self._vcd(w2, v2)), ('eval', 'eor', '(defun sd9 [] (signed top.s))'), ('eval', 'eor', '(sd9)'), ('unload', 't0'),
+                         ('loadvcd', 't0', self._vcd(w, v)),
+                         ('eval', 'eor', f'(list (bits->sint "{bits}") (signed top.s) top.s (signal-width "top.s"))'), ('eval', 'eor', '(sd9)')],
+                        [(2, want_a), (5, want), (6, I(sint(bits)))])
             return ([('loadvcd', 't0', self._vcd(w, v)),
                      ('eval', 'eor', f'(list (bits->sint "{bits}") (signed top.s) top.s (signal-width "top.s"))')], [(1, want)])
         if k == 'str':
